@@ -218,5 +218,5 @@ func Harness_C07_write() {
 }
 
 // VerifCloses: how many times the underlying gorilla connection was closed.
-func VerifCloses() int { return vCloses }
+func VerifCloses() int  { return vCloses }
 func VerifResetCloses() { vCloses = 0 }
